@@ -88,6 +88,12 @@ func tcpClient(wg *sync.WaitGroup, addr string, id uint16, name string) {
 
 func main() {
 	log.SetOutput(io.Discard)
+	// the library's logger prints to os.Stdout; the lines are of no interest. Redirected ONCE, before any
+	// goroutine exists (swapping it later would itself race with a logging goroutine).
+	realOut := os.Stdout
+	if dn, err := os.OpenFile(os.DevNull, os.O_WRONLY, 0); err == nil {
+		os.Stdout = dn
+	}
 	rounds := 20
 	if len(os.Args) > 1 {
 		rounds, _ = strconv.Atoi(os.Args[1])
@@ -246,6 +252,56 @@ func main() {
 				}
 			}
 		}
+		// --- LLMNR server in DEBUG mode with the library's own packet-describing handler, kept busy across a
+		// wall-clock second boundary (first round only): the Serve loop and the handler goroutines log
+		// concurrently, and whatever the logger keeps per second / per call is shared between them
+		if r == 0 {
+			h := llmnr.HandlerFunc(func(s *llmnr.Server, ra net.Addr, w llmnr.ResponseWriter, m *llmnr.Message) bool {
+				resp := llmnr.CreateResponseFromMessage(m)
+				for _, q := range m.Questions {
+					resp.AddAnswerClassINTypeA(q.Name, "10.0.0.1")
+				}
+				w.WriteMessage(resp)
+				return true
+			})
+			srv, _ := llmnr.NewServer("udp4", []llmnr.Handler{h, llmnr.HandlerFunc(llmnr.HandlerDescribePacket)})
+			c, err := net.ListenUDP("udp4", &net.UDPAddr{IP: net.IPv4(127, 0, 0, 1)})
+			if err != nil {
+				skipped["llmnr-Serve-debug"] = err.Error()
+			} else {
+				srv.Conn = c
+				srv.SetDebug(true)
+				var sw sync.WaitGroup
+				sw.Add(1)
+				go func() { defer sw.Done(); srv.Serve() }()
+				until := time.Now().Add(1300 * time.Millisecond)
+				var wg sync.WaitGroup
+				for i := 0; i < 4; i++ {
+					wg.Add(1)
+					go func(i int) {
+						defer wg.Done()
+						cc, err := net.DialUDP("udp4", nil, c.LocalAddr().(*net.UDPAddr))
+						if err != nil {
+							return
+						}
+						defer cc.Close()
+						for time.Now().Before(until) {
+							m := llmnr.NewMessage()
+							m.SetQuery()
+							m.AddQuestion(fmt.Sprintf("host%d", i), llmnr.TypeA, llmnr.ClassIN)
+							b, _ := m.Encode()
+							cc.Write(b)
+							cc.SetReadDeadline(time.Now().Add(20 * time.Millisecond))
+							cc.Read(make([]byte, 1500))
+						}
+					}(i)
+				}
+				wg.Wait()
+				srv.Close()
+				sw.Wait()
+				done["llmnr-Serve-debug"]++
+			}
+		}
 		// --- LLMNR client: concurrent queries and Close
 		{
 			cl, err := llmnr.NewClient()
@@ -274,5 +330,5 @@ func main() {
 			}
 		}
 	}
-	fmt.Printf("race pass rounds=%d completed=%v skipped=%v\n", rounds, done, skipped)
+	fmt.Fprintf(realOut, "race pass rounds=%d completed=%v skipped=%v\n", rounds, done, skipped)
 }
